@@ -27,6 +27,16 @@ pub type Chooser<'a> = &'a mut dyn FnMut(&[Step]) -> Option<Step>;
 /// the chooser picks, one at a time, until nothing is enabled or the chooser stops. Returns the steps taken.
 pub fn run_scenario_with(scn: &Scenario, hooks: bool, x: &ExploreOpts, mut online: Option<Chooser>) -> (RunResult, Vec<Step>) {
     let mut taken: Vec<Step> = Vec::new();
+    // A signal sent in the middle of a poll (by a synchronous function, or by a completing function) can only be judged
+    // with fn_graph's own events in the trace (which functions the ready stream had handed out before it): such
+    // scenarios are always recorded with hooks on. (Threaded scenarios cannot be: the hook sink is thread-local.)
+    let in_poll_signal = scn.phases.iter().any(|ph| match ph {
+        Phase::Runs { runs, steps } => {
+            runs.iter().any(|c| !c.sync_sig.is_empty()) || steps.iter().any(|st| matches!(st, Step::Open { signal: true, .. }))
+        }
+        _ => false,
+    });
+    let hooks = hooks || (in_poll_signal && !scn.threads);
     let w = World::new(hooks);
     #[cfg(feature = "hooks")]
     {
